@@ -37,6 +37,7 @@ META = dict(
          "removed from the pinned pandas) was repaired with a fix: commit.",
     technique="affine index arithmetic on the AST, ordering (dominance) rules, API resolution against the installed library's source",
 )
+META["text"] += " R2: the card identifier built from a sampled CVR is a function of that CVR's id alone."
 
 
 def run(chk):
